@@ -198,6 +198,39 @@ theorem C09_symlink_refused (env : Env) (fd : Fd) (flags : Nat) (hfd : 0 ≤ fd)
       simp [List.length_append] at this
       exact absurd this (by omega)
 
+/-- **No fall-back on an unrelated failure (finding F22, repaired).**  For every environment: when
+`open_follow` (the heart of `reopen`) succeeds, its readlink probe either succeeded — the target is
+a link and the final open follows it inside the verified parent directory — or failed with exactly
+`EINVAL`/`ENOENT` ("not a symlink" / "no such file").  A probe that fails for any other reason
+(`EMFILE`, `ENOMEM`, `EINTR`, `EIO`, …) is the result of the call: it can no longer turn into an
+`O_NOFOLLOW` open that returns the magic-link itself instead of the handle's inode. -/
+theorem C09_no_fallback_on_unrelated_failure (env : Env) (hd : ProcH) (base : Procfs.Base) (sub : Bytes) (fl : Nat)
+    {h h' : Hist} {fd : Fd}
+    (hr : Runs (Procfs.openFollowH env hd base sub fl) h h' (.ok fd)) :
+    ∃ hm x, Runs (Procfs.readlinkH env hd base (Path.stripTrailingSlash sub).1) h hm x ∧
+      ((∃ b, x = .ok b) ∨ x = .error (.os EINVAL) ∨ x = .error (.os ENOENT)) := by
+  unfold Procfs.openFollowH at hr
+  dsimp only at hr
+  generalize (if (Path.stripTrailingSlash sub).2 = true then fl ||| O_DIRECTORY else fl) = fl' at hr
+  split at hr
+  · obtain ⟨_, he⟩ := Runs.ret_inv hr; cases he
+  · simp only [M.bind_def] at hr
+    obtain ⟨hm, probe, h1, h2⟩ := Runs.mbind_ok hr
+    obtain ⟨x, hx, hcase⟩ := Runs.try_inv h1
+    refine ⟨hm, x, hx, ?_⟩
+    rcases hcase with ⟨b, hxb, _⟩ | ⟨e, hxe, hfe⟩
+    · exact Or.inl ⟨b, hxb⟩
+    · rcases hfe with ⟨_, hp⟩ | ⟨_, hp⟩
+      · cases hp
+      · cases hp
+        dsimp only at h2
+        split at h2
+        · rename_i hor
+          rcases hor with he | he
+          · right; left; rw [hxe, he]
+          · right; right; rw [hxe, he]
+        · obtain ⟨_, he⟩ := Runs.ret_inv h2; cases he
+
 /-! ## Non-vacuity -/
 
 example : Sys.procSubpath 1023 = .ok (b!"fd/" ++ Path.decimal 1023) := C09_proc_subpath_total 1023 (by decide)
